@@ -54,7 +54,7 @@ MANIFEST = {
     "text": "The real GMRF densities are proved equal to the Gaussian quadratic form of the precision matrix the model itself "
             "publishes for every field length 2..50 (thorough tier: complete for the stated bound), the integrated priors equal their "
             "closed forms (and numerical quadrature, bounded), and the sufficient statistics reproduce log_prob on every event "
-            "ordering (T<=4). Known finding: the published matrix ignores weights / time-aware scaling.",
+            "ordering (T<=4). Weighted and time-aware variants included (the defects found there were repaired, see known_findings.json).",
     "note": "Reals; Gamma integral assumed (quadrature cross-check is bounded); sufficient statistics shape-bounded (T<=4).",
     "technique": "sidecar contracts + symbolic execution + exact normal form (quadratic forms, log rules); forking over event orderings; mpmath quadrature as bounded stand-in for the integral",
 }
